@@ -548,6 +548,11 @@ func (e *env) pools() map[string][]rt.Value {
 	for _, s := range []string{"", "a", "b", "ab", "abcdefg", "abcdefgh", "1", "1.0", "\x00", "a\x00", strings.Repeat("long", 10), strings.Repeat("long", 10) + "x", "x", "y", "z"} {
 		p["str"] = append(p["str"], sv(s))
 	}
+	// pairs that differ only in the eighth byte / only by a trailing NUL / only in the length byte
+	for _, x := range []string{"kkkkkkk1", "kkkkkkk2", "kkkkkk1", "kkkkkk2", "kkkkkkk", "kkkkkkk\x00", "kkkkkkk\x07", "kkkkkkk\x08",
+		"abcdefghijklmno1", "abcdefghijklmno2"} {
+		p["str"] = append(p["str"], sv(x))
+	}
 	p["zero"] = []rt.Value{iv(0), fv(0), fv(math.Copysign(0, -1))}
 	p["bool"] = []rt.Value{rt.BoolValue(true), rt.BoolValue(false)}
 	for _, r := range e.refs[:8] {
@@ -810,6 +815,123 @@ func (g *gen) random(leg string, maxOps int) {
 	c.probe(nil)
 }
 
+// nearCollisions: families of keys that differ only where an encoding (the scalar image of short
+// strings, the int/float normalisation, the hash) might lose information.  For every family: assign a
+// fresh value to each key, read every key back, traverse — in a small (linear-mode) table and in a
+// hashed-mode table.  Level A is simply the map: two keys share a value iff they are equal keys.
+func (g *gen) nearCollisions(leg string) {
+	e := g.e
+	le := func(u uint64) string {
+		b := make([]byte, 8)
+		for i := 0; i < 8; i++ {
+			b[i] = byte(u >> (8 * uint(i)))
+		}
+		return string(b)
+	}
+	be := func(u uint64) string {
+		b := make([]byte, 8)
+		for i := 0; i < 8; i++ {
+			b[7-i] = byte(u >> (8 * uint(i)))
+		}
+		return string(b)
+	}
+	// the scalar image golua gives a short string: bytes, zero padding, length in the last byte
+	scalarOf := func(s string) uint64 {
+		b := make([]byte, 8)
+		copy(b, s)
+		b[7] = byte(len(s))
+		var u uint64
+		for i := 0; i < 8; i++ {
+			u |= uint64(b[i]) << (8 * uint(i))
+		}
+		return u
+	}
+	var fams [][]rt.Value
+	var names []string
+	add := func(name string, ks ...rt.Value) {
+		fams = append(fams, ks)
+		names = append(names, name)
+	}
+	alphabet := "abcdefghijklmnopqrstuvwxyz"
+	for _, n := range []int{0, 1, 2, 3, 4, 5, 6, 7, 8, 9, 10, 15, 16, 17} {
+		base := alphabet[:n]
+		ks := []rt.Value{sv(base), sv(base + "\x00"), sv(base + "x"), sv(base + "\x00\x00")}
+		if n > 0 {
+			b := []byte(base)
+			b[n-1] ^= 1
+			ks = append(ks, sv(string(b)))
+			b = []byte(base)
+			b[0] ^= 1
+			ks = append(ks, sv(string(b)))
+			b = []byte(base)
+			b[n/2] ^= 0x80
+			ks = append(ks, sv(string(b)))
+			ks = append(ks, sv(base[:n-1]), sv(base[:n-1]+"\x00"))
+			b = []byte(base)
+			b[n-1] = byte(n) // the length byte of the scalar image in the last position
+			ks = append(ks, sv(string(b)))
+		}
+		add("strlen-"+strconv.Itoa(n), ks...)
+	}
+	// strings that are the 8-byte image of numbers, next to those numbers
+	{
+		var ks []rt.Value
+		for _, n := range []uint64{0, 1, 2, 255, 256, 1 << 56, 7 << 56, 8 << 56} {
+			ks = append(ks, iv(int64(n)), sv(le(n)), sv(be(n)))
+		}
+		add("int-images", ks...)
+		ks = nil
+		for _, f := range []float64{1, 0.5, 2.5, math.Copysign(0, -1), 1e100} {
+			u := math.Float64bits(f)
+			ks = append(ks, fv(f), sv(le(u)), sv(be(u)), iv(int64(u)))
+		}
+		add("float-images", ks...)
+		ks = nil
+		for _, s := range []string{"", "a", "ab", "abcdefg", "\x00", "\x01"} {
+			u := scalarOf(s)
+			ks = append(ks, sv(s), iv(int64(u)), sv(le(u)), fv(math.Float64frombits(u)))
+		}
+		add("scalar-images", ks...)
+	}
+	add("one", sv("1"), iv(1), fv(1), sv("1.0"), sv("1 "), sv("01"), sv("0x1"), rt.BoolValue(true))
+	add("empty-false-zero", sv(""), rt.BoolValue(false), iv(0), fv(0), fv(math.Copysign(0, -1)), sv("0"), sv("false"),
+		sv("nil"), sv("\x00"), rt.BoolValue(true), iv(1), sv("true"))
+	add("two53", iv(1<<53), iv(1<<53+1), fv(9007199254740992), fv(9007199254740994), iv(1<<53-1), fv(9007199254740991),
+		iv(1<<53+2))
+	add("two63", iv(math.MinInt64), fv(-9223372036854775808), iv(math.MaxInt64), fv(9223372036854775808),
+		iv(math.MaxInt64-1), fv(9223372036854774784), iv(9223372036854774784), iv(math.MinInt64+1),
+		fv(-9223372036854777856))
+	add("references", e.refs[0].v, e.refs[1].v, e.refs[4].v, e.refs[5].v, e.refs[6].v, e.refs[7].v,
+		e.refs[8].v, e.refs[9].v, e.refs[10].v, e.refs[11].v)
+	for fi, ks := range fams {
+		for _, hashed := range []bool{false, true} {
+			mode := "small"
+			if hashed {
+				mode = "hashed"
+			}
+			c := e.newCase(g.id("n"), leg, "near-"+names[fi]+"-"+mode)
+			if hashed {
+				for i := 0; i < 12; i++ {
+					c.S(sv("p"+strconv.Itoa(i)), e.fresh())
+				}
+			}
+			for _, k := range ks {
+				c.S(k, e.fresh())
+			}
+			c.S(fv(math.NaN()), e.fresh())
+			c.probe(ks)
+			// overwrite in reverse order, clear every other key, read again
+			for i := len(ks) - 1; i >= 0; i-- {
+				c.S(ks[i], e.fresh())
+			}
+			for i := 0; i < len(ks); i += 2 {
+				c.S(ks[i], rt.NilValue)
+			}
+			c.probe(ks)
+		}
+	}
+}
+
 // directed cases: the shapes named in DESIGN (growth, migration, deletion, traversal + clear)
 func (g *gen) directed(leg string) {
 	e := g.e
@@ -996,6 +1118,11 @@ func generate(tier string) {
 	}
 	for _, leg := range legs {
 		g.directed(leg)
+	}
+	g.nearCollisions("go")
+	g.nearCollisions("lua")
+	if thorough {
+		g.nearCollisions("luaraw")
 	}
 	g.meta()
 	if thorough {
